@@ -40,9 +40,7 @@ def echo_rule(c):
 def oracle_gated(c, o, io_):
     if c["start_fails"]:
         return None
-    got = o["child_stdin"]
-    if "int" in c["sched"]:
-        got = got.replace(b"\x03", b"")
+    got = o["child_stdin_fwd"]  # what the stdin handler forwarded (interrupts sent by the main thread are not input)
     if not c["has_in"]:
         if got or o["closes"]:
             return "input disabled but the child received %r / %d closes" % (got, o["closes"])
@@ -268,7 +266,8 @@ def run(ctx):
     rng = ctx.rng
     gcases = [runnerio.gen_case(rng, rng.choice(["stdin", "stdin", "stdin", None, "fault"])) for _ in range(ctx.n(2500, 25000))]
     runnerio.run_cases(ctx, out, gcases, oracle=oracle_gated)
-    texts = ["", "a", "hi!\n", "é", "x€y", "日本語\n", "ab" * 30, "😀z", "line1\nline2\n"]
+    texts = ["", "a", "hi!\n", "é", "x€y", "日本語\n", "ab" * 30, "😀z", "line1\nline2\n",
+             "xyz\x04", "a\x04b\n", "\x04", "\x03q", "nul\x00l", "\x1a\x1b[A", "cr\r\nlf"]
     extra = []
     for t in texts:
         for b in (False, True):
